@@ -13,7 +13,7 @@ arbitrary, so every statement covers erroring callbacks.
 `Permits.covers p k`: the search permits `p` suffice for `k` elements (always, when no limit is set).
 -/
 import XrayProofs.GenConsumers
-import XrayProofs.GenProduct
+import XrayProofs.GenProductDen
 namespace XrayModel.C16
 open XrayModel.Gen
 
@@ -320,10 +320,51 @@ theorem reduce_infinite_never_returns (f : F2) (init : Item) (fuel : Nat) (v : V
 
 /-! ### product (the odometer of `XrayModel/GenProduct.lean`)
 
-The general `iter_den_product` (the odometer enumerates `List` product in order, for all parts) is NOT proved:
-what is proved are the two ends of a round — an empty part empties the product, the first tuple is the tuple of
-heads — and closed instances in which the carry crosses two parts at once (the shape a seeded defect broke);
-the tie compares the model with the implementation and `itertools.product` on generated products. -/
+`Lists L fuel xs it`: calling the part's `next()` repeatedly yields exactly the values `xs`, then the end
+(`lists_arr`: arrays do).  `cart` is the usual lexicographic product (last factor fastest, `itertools.product`). -/
+
+/-- **the product denotes the lexicographic product**: for every arity and all parts denoting finite lists, the
+first `n` elements of the product generator are the first `n` tuples of `cart`, in order — for every `n`, so the
+whole (finite) stream; the parts are started over from the generator value at every carry -/
+theorem iter_den_product (L : Option Nat) (fuel : Nat) (ps : List (G × List V)) (n : Nat)
+    (h : ∀ p ∈ ps, Lists L fuel p.2 (p.1.start L)) :
+    ptake L fuel n (pstart L (ps.map Prod.fst)) = some (((cart (ps.map Prod.snd)).take n).map V.tup) := by
+  rw [ptake_cartR L fuel ps n h, cart_eq_cartR, List.map_take, List.map_take, List.map_map]
+  rfl
+
+/-- instance: a product of arrays -/
+theorem iter_den_product_arrays (L : Option Nat) (fuel : Nat) (xss : List (List V)) (n : Nat) :
+    ptake L (fuel + 1) n (pstart L (xss.map G.fromArr)) = some (((cart xss).take n).map V.tup) := by
+  have := iter_den_product L (fuel + 1) (xss.map (fun xs => (G.fromArr xs, xs))) n (by
+    intro p hp
+    obtain ⟨xs, _, rfl⟩ := List.mem_map.mp hp
+    simpa [G.start] using lists_arr L fuel xs)
+  simpa [List.map_map, Function.comp_def] using this
+
+/-- the product ends after the last tuple (taking more than there are changes nothing) -/
+theorem product_ends (L : Option Nat) (fuel : Nat) (xss : List (List V)) (n : Nat) (hn : (cart xss).length ≤ n) :
+    ptake L (fuel + 1) n (pstart L (xss.map G.fromArr)) = some ((cart xss).map V.tup) := by
+  rw [iter_den_product_arrays, List.take_of_length_le hn]
+
+/-- laziness in the last factor (take-n form, the last factor may be infinite): the first `n` tuples need the
+heads of the other parts and exactly the first `n` elements `f 0 … f (n-1)` of the last part -/
+theorem product_lazy_last (L : Option Nat) (fuel : Nat) (ps : List (G × List V)) (glast : G) (f : Nat → V) (n : Nat)
+    (h : ∀ p ∈ ps, Lists L fuel p.2 (p.1.start L) ∧ p.2 ≠ []) (hs : Strm L fuel n f (glast.start L)) :
+    ptake L fuel n (pstart L (ps.map Prod.fst ++ [glast])) =
+      some ((List.range n).map (fun k => V.tup ((ps.map Prod.snd).filterMap List.head? ++ [f k]))) :=
+  ptake_lazy_last L fuel ps glast f n h hs
+
+/-- the counter as last factor: `[1,2] × count()` starts `(1,0), (1,1), (1,2), …` for every `n` -/
+theorem strm_count (L : Option Nat) (fuel : Nat) : ∀ (n i : Nat),
+    Strm L (fuel + 1) n (fun k => V.int ((i + k : Nat) : Int)) (.count i none) := by
+  intro n
+  induction n with
+  | zero => intro i; trivial
+  | succ n ih =>
+    intro i
+    refine ⟨.count (i + 1) none, by simp [next, step], ?_⟩
+    have := ih (i + 1)
+    simpa [Nat.add_assoc, Nat.add_comm 1] using this
 
 /-- a product with an empty part is empty -/
 theorem product_empty_part (L : Option Nat) (fuel : Nat) (xss : List (List V)) (h : [] ∈ xss) :
